@@ -105,4 +105,4 @@ def replay(path):
 MANIFEST = dict(engine='sched + vsync', level='model_checking',
   technique='stateless model checking of the real api.getMessages over the real OutputStream under a controlled scheduler: histories x disconnect points x node lag x all interleavings of reader and applier within a preemption bound',
   text='For every output history (batches with mixed recipients), every disconnect point (between and inside batches) and every lag of the node the client reconnects to, the real getMessages runs against a real output stream while an applier thread adds the missing batches; all schedules with at most 2/3 preemptions are executed and at quiescence the concatenation of what the client received must be exactly the messages addressed to it, in order, once.',
-  note='The recipient filter and the channel consumer of handleGetMessages are mirrored (3 lines); HTTP framing is out of scope of this tier. No compaction (resume points newer than the horizon).')
+  note='The recipient filter and the channel consumer of handleGetMessages are mirrored (3 lines); HTTP framing is out of scope of this tier. No compaction (resume points newer than the horizon). An API tier resumes at every position of streams produced by the real node (live, restarted, restored in the middle of a history) and compares everything the node stores and serves with a never-restored twin state machine.')
